@@ -435,9 +435,16 @@ impl WorkerSession {
 
     /// drive the channel read and write
     pub fn ready(&mut self) -> WorkerResult {
+        // read before writing: the last answers of a worker that has just exited are
+        // still in the socket, and a failed write would make the channel unreadable
+        let responses = extract_messages(&mut self.channel);
         let status = self.channel.writable();
         trace!("Worker writable: {:?}", status);
-        let responses = extract_messages(&mut self.channel);
+        // a hard I/O error resets the interest and readiness of the channel, hang-up
+        // included, and a broken socket raises no further event: remember that it is dead
+        if self.channel.interest.is_empty() {
+            self.channel.readiness.insert(Ready::ERROR);
+        }
         if !responses.is_empty() {
             return WorkerResult::NewResponses(responses);
         }
